@@ -260,6 +260,30 @@ def _names(rng, k, kind):
     return [pool[j] + ('' if kind == 'b' else '_s') for j in pick]
 
 
+def _with_repeats(f, ori, cand, interior, rng, p=0.15):
+    """with probability p the index array lists a facet MORE THAN ONCE - one entry copied, or the concatenation of the
+    selection with a second, overlapping one (a union built by concatenation); a repeated facet keeps the flag of its
+    first copy, so the array designates the same SET of (oriented) facets as without the repetitions."""
+    if not f or rng.random() >= p:
+        return f, ori
+    flag = dict(zip(f, ori)) if ori is not None else None
+    if rng.random() < 0.5:
+        more = [f[int(rng.integers(len(f)))] for _ in range(int(rng.integers(1, 3)))]
+    else:
+        keep = [x for x in f if rng.random() < 0.6] or [f[0]]
+        pool = [int(x) for x in cand]
+        new = [pool[int(j)] for j in rng.choice(len(pool), size=min(len(pool), int(rng.integers(0, 3))), replace=False)]
+        more = keep + new
+    if flag is not None:
+        for x in more:
+            if x not in flag:
+                flag[x] = int(rng.integers(2)) if x in interior else 0
+    f2 = list(f) + more
+    if rng.random() < 0.3:
+        f2 = sorted(f2)
+    return f2, (None if flag is None else [flag[x] for x in f2])
+
+
 def random_tags(m, rng, nb=2, ns=2, p_int=0.5):
     """random named boundaries (boundary and interior facets, random flags on interior ones) and sub-domains."""
     nf, nt = m.facets.shape[1], m.t.shape[1]
@@ -281,7 +305,8 @@ def random_tags(m, rng, nb=2, ns=2, p_int=0.5):
         ori = None
         if oriented:
             ori = [int(rng.integers(2)) if int(x) in interior else 0 for x in f]
-        bnd[name] = {'f': [int(x) for x in f], 'ori': ori}
+        f, ori = _with_repeats([int(x) for x in f], ori, cand, interior, rng)
+        bnd[name] = {'f': f, 'ori': ori}
     sub = {}
     for name in _names(rng, ns, 's'):
         k = int(rng.integers(0, nt + 1))
@@ -376,6 +401,7 @@ def redefine_tags(m, rec, rng, dyadic):
             ori = [int(rng.integers(2)) if x in interior else 0 for x in f] if rng.random() < 0.7 else None
             if sorted(f) != sorted(old['f']) or (ori or []) != (old.get('ori') or []):
                 break
+        f, ori = _with_repeats(f, ori, np.arange(nf), interior, rng)
         bnd[name] = {'f': f, 'ori': ori}
     for name in list(rec.get('sub', {})) + (['zone_later'] if rng.random() < 0.3 else []):
         old = rec.get('sub', {}).get(name, [])
@@ -559,6 +585,9 @@ def run(ctx):
     ctx.notes['events_per_format'] = fm
     return ctx.finish(rule=RULE, assumptions=[
         'orientation flag 1 is only put on interior facets (flag 1 on a boundary facet has no owner cell)',
+        'triangle meshes are built with the class default sort_t=True: a MeshTri1 whose cells keep an unsorted local '
+        'vertex order (sort_t=False, e.g. the result of oriented()) is NOT explored - every loader re-sorts t, see the '
+        'report to the coordinator',
         'tag names are drawn from [A-Za-z0-9_.:-]; names with blanks are not explored '
         '(meshio refuses them for VTK)',
         'dictionary / JSON forms are exercised for first-order meshes only, as the statement says',
